@@ -52,6 +52,20 @@ pub fn format_lsp(state: &HashMap<String, String>, key: &str, ext: &str) -> Resu
     })
 }
 
+/// `textDocument/formatting` with the options an editor may send along (trim trailing whitespace, final newline
+/// handling, another tab size): the answer is the note's normal form, whatever the options say
+pub fn format_lsp_with_editor_options(state: &HashMap<String, String>, key: &str, ext: &str) -> Result<String, String> {
+    dump::catch(|| {
+        let server = server_for(state, ext);
+        let edits = server.handle_document_formatting(DocumentFormattingParams {
+            text_document: TextDocumentIdentifier { uri: uri_for(key) },
+            options: FormattingOptions { tab_size: 8, insert_spaces: false, properties: Default::default(), trim_trailing_whitespace: Some(true), insert_final_newline: Some(true), trim_final_newlines: Some(true) },
+            work_done_progress_params: Default::default(),
+        });
+        edits[0].new_text.clone()
+    })
+}
+
 fn first_atom_diff(a: &[Atom], b: &[Atom]) -> String {
     for (i, (x, y)) in a.iter().zip(b.iter()).enumerate() {
         if x != y {
@@ -79,6 +93,12 @@ pub fn check_doc(key: &str, text: &str) -> Option<String> {
             ("update_key+to_markdown", format_update(key, text, ext)),
             ("lsp formatting", format_lsp(&st, key, ext)),
         ];
+        // the request's formatting options change nothing
+        if let (Ok(plain), Ok(with_options)) = (&routes[2].1, format_lsp_with_editor_options(&st, key, ext)) {
+            if *plain != with_options {
+                return Some(format!("route lsp formatting ext {:?}: with editor options (trimTrailingWhitespace, insertFinalNewline, trimFinalNewlines, tabSize 8) the answer is {:?}, without them {:?}", ext, with_options.chars().take(300).collect::<String>(), plain.chars().take(300).collect::<String>()));
+            }
+        }
         for (name, out) in routes {
             match out {
                 Err(_) => return None, // panics are C03's
@@ -208,6 +228,14 @@ pub fn run(ctx: &Ctx, model: &mut Model, rep: &mut Report) {
         rep.count("corpus_fixed_witnesses");
         if let Some(what) = check_doc(&k, &t) {
             rep.fail(json!({"kind": "content", "key": k, "text": t, "what": format!("repaired finding {} is back: {}", f.id, what)}));
+        }
+    }
+    // trailing whitespace that is content: code lines ending in spaces / a tab, front matter, a no-break space
+    for t in ["```\nfirst line  \nsecond\t\n   \n```\n\nafter\n", "---\ntitle: x  \n---\n\n# T\n\ntext\n", "para ending in a no-break space\u{a0}\n\nnext\n", "- item\n\n  ```\n  code  \n  ```\n"] {
+        rep.evaluations += 1;
+        rep.count("trailing_whitespace_texts");
+        if let Some(what) = check_doc("a", t) {
+            rep.fail(json!({"kind": "content", "key": "a", "text": t, "via": "Import", "what": what}));
         }
     }
     let n = if ctx.thorough { 30000 } else { 1500 };
